@@ -117,7 +117,7 @@ Print Assumptions C18_dropped_is_gone.
 Print Assumptions C18_cleanup_exact.
 
 (* ------------------------------------------------------------------ refuted on the model (pair instance) *)
-Definition fxs (b : bool) : fixes := {| fx77 := true; fx716 := true; fx715 := b; fx718 := true; fxba := true |}.
+Definition fxs (b : bool) : fixes := {| fx77 := true; fx716 := true; fx715 := b; fx718 := true; fxba := true; fxco := true |}.
 Definition c0 (b : bool) : state KI :=
   cinit KI ["inp"] 0 [("customers", 0); ("blocked_with_cols", 0); ("r", 0)] ["first_name"; "surname"] 0 5 6 (fxs b).
 
